@@ -92,7 +92,7 @@ class Ctx(object):
         return None
 
     # ---- finishing -------------------------------------------------------------------------------
-    def finish(self, explanation, not_decided, assumptions=(), replay_only=None):
+    def finish(self, explanation, not_decided, assumptions=(), write=True):
         kf_path = os.path.join(VERIF, 'known_findings.json')
         known = []
         if os.path.exists(kf_path):
@@ -116,14 +116,17 @@ class Ctx(object):
                                                  ('[%s] ' % o['loc']) if o['loc'] else '', o['detail']))
         vdir = os.path.join(VERIF, 'evidence', 'violations')
         out_lines = []
-        if viol:
+        if viol and write:
             os.makedirs(vdir, exist_ok=True)
         for i, o in enumerate(viol):
             path = os.path.join(vdir, '%s-%d.json' % (self.prop, i))
             rec = {k: v for k, v in o.items() if isinstance(v, (str, int, float, type(None), list, dict))}
             rec['property'] = self.prop
-            with open(path, 'w') as f:
-                json.dump(rec, f, indent=1, sort_keys=True, default=str)
+            if write:
+                with open(path, 'w') as f:
+                    json.dump(rec, f, indent=1, sort_keys=True, default=str)
+            else:
+                path = 'rule=%s;construct=%s;key=%s' % (o['rule'], o['construct'], o['key'])
             out_lines.append('VIOLATION property=%s replay=%s' % (self.prop, path))
         for kk in sorted(used_known):
             k = open_known[kk]
@@ -167,11 +170,14 @@ class Ctx(object):
             },
         }
         ev['coverage'].update(self.extra)
-        os.makedirs(os.path.join(VERIF, 'evidence'), exist_ok=True)
-        with open(os.path.join(VERIF, 'evidence', '%s.json' % self.prop), 'w') as f:
-            json.dump(ev, f, indent=1, sort_keys=True, default=str)
+        if write:
+            os.makedirs(os.path.join(VERIF, 'evidence'), exist_ok=True)
+            with open(os.path.join(VERIF, 'evidence', '%s.json' % self.prop), 'w') as f:
+                json.dump(ev, f, indent=1, sort_keys=True, default=str)
+        self.evidence = ev
         for l in lines:
-            print(l)
+            if write or not l.startswith(HOLDS):
+                print(l)
         print('-- %s tier=%s: %d obligations, %d hold, %d known findings, %d violations, %d undecided, %.2fs; '
               'analysed %d modules / %d functions (digest %s)'
               % (self.prop, self.tier, n_ob, n_dis - len(used_known), len(used_known), len(viol), len(und),
